@@ -84,6 +84,15 @@ thread_local! {
     static SCEN_NAME: std::cell::RefCell<String> = std::cell::RefCell::new(String::new());
 }
 
+/// (index, name) of the scenario the current thread works for; child threads inherit it explicitly.
+pub fn current_scenario() -> (usize, String) {
+    (SCENARIO.with(|s| s.get()), SCEN_NAME.with(|s| s.borrow().clone()))
+}
+pub fn set_scenario(s: &(usize, String)) {
+    SCENARIO.with(|c| c.set(s.0));
+    SCEN_NAME.with(|c| *c.borrow_mut() = s.1.clone());
+}
+
 fn h64(s: &str) -> u64 {
     let mut h = std::collections::hash_map::DefaultHasher::new();
     s.hash(&mut h);
